@@ -1157,6 +1157,28 @@ PROPS["C20"] = dict(lean=["ChfVerif.Props.C20"], explore=explore_c20, gen=[gen_t
 
 def _ber_run(ctx, res, replay_ops, n):
     r = ctx.stream("ber", n, ops=replay_ops)
+    # A Go runtime abort (fatal error: concurrent map writes, stack overflow, …) is not a panic: nothing recovers it and the
+    # harness process is gone.  Answers are flushed operation by operation, so the first missing answer belongs to the
+    # operation the process died in; the harness is restarted behind it.
+    r.crash_info = {}
+    restarts = 0
+    while "crash" in r.impl:
+        i = r.impl.index("crash")
+        err = core.LAST_STDERR.get("ber", "")
+        m = re.search(r"^(fatal error: .*|panic: .*|runtime: .*)$", err, flags=re.M)
+        r.crash_info[i] = (m.group(1) if m else err.strip().split("\n")[0] if err.strip() else "the harness process died")[:300]
+        r.impl[i] = "crash!"
+        restarts += 1
+        if restarts >= 25:
+            # enough: what lies behind was never run and is not judged
+            res.extra["operations_not_run_after_25_runtime_aborts"] = len(r.ops) - i - 1
+            r.ops, r.impl, r.model = r.ops[:i + 1], r.impl[:i + 1], r.model[:i + 1]
+            break
+        tail = r.ops[i + 1:]
+        if tail:
+            r.impl[i + 1:] = core.harness_run(ctx.harness, "ber", tail)
+    r.impl = ["crash" if x == "crash!" else x for x in r.impl]
+    res.extra["harness_restarts_after_runtime_abort"] = restarts
     for i, (op, im, mo) in enumerate(zip(r.ops, r.impl, r.model)):
         if im != mo:
             res.disagreements += 1
@@ -1164,6 +1186,17 @@ def _ber_run(ctx, res, replay_ops, n):
                           found_input=False)
             break
     return r
+
+
+def _ber_smallest_first(res):
+    """report the failing input that is shortest to read (the order of discovery is kept among equals)"""
+    res.violations.sort(key=lambda v: (not v["found_input"], len(v["replay"][0]) if v["found_input"] and v["replay"] else 0))
+
+
+def _ber_items(t):
+    """items (ty, params, arg) of an H or V operation (tokens after the stream name)"""
+    body = t[3:] if t[1] == "H" else t[4:]
+    return [tuple(body[k:k + 3]) for k in range(0, len(body) - 2, 3)]
 
 
 def _ty_class(ty):
@@ -1180,8 +1213,9 @@ def explore_c04(ctx, res, replay_ops=None):
         res.evaluations += 1
         res.dist[_ty_class(t[2])] += 1
         it = im.split(" ")
-        if it[0] in ("panic", "timeout"):
-            res.violation("oracle", "C04: marshalling panicked", [op[:20000], "# impl: " + im[:200]])
+        if it[0] in ("panic", "timeout", "crash"):
+            res.violation("oracle", "C04: marshalling panicked" + (" (%s)" % r.crash_info.get(i, "") if it[0] == "crash" else ""),
+                          [op[:20000], "# impl: " + im[:200]])
             continue
         if it[0] == "err":
             res.dist["marshal-error"] += 1
@@ -1204,51 +1238,140 @@ def explore_c04(ctx, res, replay_ops=None):
         if sp != "ok " + im[1]:
             res.violation("oracle", "C04: the marshalled octets differ from the reference X.690 encoder",
                           [r.ops[i][:20000], "# impl:      " + r.impl[i][:3000], "# reference: " + sp[:3000]])
+    _ber_smallest_first(res)
     res.rule = ("type-directed random values of all 195 cdrType types (optional members toggled at 0/30/70/100%, every CHOICE alternative, "
                 "lists of 0-3 elements, boundary integers, strings/octets of length 0..9 and (thorough) 126..257, 1000), the CHF record with "
                 "'explicit,choice', primitives with top-level parameters (tags 0/30/31/128/2^21-1, explicit, string kinds) and generated "
-                "struct/choice/list types in the same tag language (distinct tags per struct, high-tag bases, explicit, set); each marshalled "
-                "value is checked by the Lean X.690 walker and against the Lean reference encoder; non-trivial = successful marshal")
+                "struct/choice/list types in the same tag language (distinct tags per struct, high-tag bases, explicit, set); values that "
+                "cannot be marshalled at every position (CHOICE Present 0 / negative / past the last / nil alternative, nil pointer elements "
+                "and mandatory members, OBJECT IDENTIFIER and unsupported kinds; in the first / a middle / the last element of lists of 1-4 "
+                "elements, in any member, under any nesting; one to three places per value) of every schema type and of generated types: "
+                "the answer must be an error or the reference encoding, never a panic; each marshalled "
+                "value is checked by the Lean X.690 walker and against the Lean reference encoder (which has no encoding for those values); "
+                "non-trivial = successful marshal")
+
+
+def _c05_item(res, op, ty, ps, arg, it, errs, where="", dom=True, mo=()):
+    """judge one marshal-then-unmarshal answer (tokens `it`) for the value `arg` of type `ty`.
+    dom: the Lean driver says (type, parameters) is in the domain of the round-trip law (Spec/C05Domain.lean: the shapes
+    Props.C05.C05_domain covers, which include every schema type); mo: the model's answer for the same item."""
+    if it[0] in ("panic", "timeout", "crash"):
+        res.violation("oracle", "C05: marshal/unmarshal panicked" + where, [op[:20000], "# impl: " + " ".join(it)[:200]])
+        return
+    if it[0] == "err":
+        # constructs the codec does not support must be *reported* (OID, open type, unselected CHOICE, nil where a value is
+        # needed); whether the value is such a one is not guessed from the notation but asked of the Lean reference encoder below
+        res.dist["marshal-error"] += 1
+        errs.append((op, ty, ps, arg, where))
+        return
+    if not dom and not (len(mo) >= 4 and mo[0] == "ok" and mo[2] == "ok" and mo[3] == arg):
+        # outside the law's domain (a shape whose members / alternatives the decoder cannot tell apart by tag number: no schema
+        # type is one) and the decoder model does not bring this value back either: not judged; model and code are still compared
+        res.outside_domain["generated type outside the round-trip domain (untagged CHOICE member, SET / absent OPTIONAL member and "
+                           "a later member with the same tag number, EXPLICIT member): value does not round-trip in the model"] += 1
+        if len(it) > 4 and it[2] in ("ok", "err") and it[-1] in ("moved", "unstable"):
+            res.violation("oracle", "C05: the marshalled octets changed after marshal had returned them (%s)%s" % (" ".join(it[4:]), where),
+                          [op[:20000], "# impl: " + " ".join(it)[:3000]])
+        return
+    res.dist["round trip judged: " + ("in the proved domain" if dom else "outside it, the model round-trips the value")] += 1
+    res.traces_validated += 1
+    res.nontrivial.add(op)
+    if len(it) < 4 or it[2] != "ok":
+        res.violation("oracle", "C05: the marshalled octets could not be unmarshalled into the same type" + where, [op[:20000], "# impl: " + " ".join(it)[:3000]])
+    elif it[3] != arg:
+        res.violation("oracle", "C05: decode(encode(v)) differs from v" + where, [op[:20000], "# impl: " + " ".join(it)[:3000]])
+    elif len(it) > 4:
+        res.violation("oracle", "C05: the marshalled octets changed after marshal had returned them (%s)%s" % (" ".join(it[4:]), where),
+                      [op[:20000], "# impl: " + " ".join(it)[:3000]])
+    elif len(res.samples) < 5 and len(op) < 400:
+        res.sample({"op": op, "impl": " ".join(it)})
 
 
 def explore_c05(ctx, res, replay_ops=None):
     r = _ber_run(ctx, res, replay_ops, n_for(ctx, 300, 3000))
+    errs = []
+    # which (type, parameters) are in the domain of the round-trip law is decided by the Lean driver
+    pairs = set()
+    for op in r.ops:
+        t = op.split(" ")
+        if t[1] == "R":
+            pairs.add((t[2], t[3]))
+        elif t[1] == "H":
+            pairs.update((ty, ps) for (ty, ps, _) in _ber_items(t))
+    pairs = sorted(pairs)
+    dom = dict(zip(pairs, (a == "in" for a in core.driver_run(["ber dom %s %s" % pr for pr in pairs])))) if pairs else {}
     for i, (op, im) in enumerate(zip(r.ops, r.impl)):
         t = op.split(" ")
-        if t[1] != "R":
-            continue
-        res.evaluations += 1
-        res.dist[_ty_class(t[2])] += 1
-        it = im.split(" ")
-        if it[0] in ("panic", "timeout"):
-            res.violation("oracle", "C05: marshal/unmarshal panicked", [op[:20000], "# impl: " + im[:200]])
-            continue
-        if it[0] == "err":
-            # constructs the codec does not support must be *reported*: OID or open type somewhere in the type
-            res.dist["marshal-error"] += 1
-            if "O" not in t[2] and "C[]" not in t[2] and "{0,-,0,0,1" not in t[2] and "cN" not in (t[4] if len(t) > 4 else ""):
-                v = t[4] if len(t) > 4 else ""
-                if not re.search(r"c0\[|;N|\[N", v):
-                    res.violation("oracle", "C05: a value of a supported type failed to marshal", [op[:20000], "# impl: " + im[:200]])
-            continue
-        res.traces_validated += 1
-        res.nontrivial.add(op)
-        arg = t[4] if len(t) > 4 else ""
-        if len(it) < 4 or it[2] != "ok":
-            res.violation("oracle", "C05: the marshalled octets could not be unmarshalled into the same type", [op[:20000], "# impl: " + im[:3000]])
-        elif it[3] != arg:
-            res.violation("oracle", "C05: decode(encode(v)) differs from v", [op[:20000], "# impl: " + im[:3000]])
-        elif len(res.samples) < 5 and len(op) < 400:
-            res.sample({"op": op, "impl": im})
+        if t[1] == "R":
+            res.evaluations += 1
+            res.dist[_ty_class(t[2])] += 1
+            _c05_item(res, op, t[2], t[3], t[4] if len(t) > 4 else "", im.split(" "), errs, dom=dom[(t[2], t[3])], mo=r.model[i].split(" "))
+        elif t[1] == "H":
+            # a history of marshal calls: every result is unmarshalled only after all calls have returned and the
+            # arguments have been overwritten
+            res.evaluations += 1
+            res.dist["history-" + t[2]] += 1
+            items = _ber_items(t)
+            if im in ("panic", "timeout", "crash"):
+                res.violation("oracle", "C05: a history of marshal calls %s%s" % (im, " (%s)" % r.crash_info.get(i, "") if im == "crash" else ""),
+                              [op[:20000], "# impl: " + im[:200]])
+                continue
+            answers = im.split(" | ")
+            if len(answers) != len(items):
+                res.violation("oracle", "C05: a history of %d marshal calls gave %d answers" % (len(items), len(answers)), [op[:20000], "# impl: " + im[:3000]])
+                continue
+            mos = r.model[i].split(" | ")
+            for k, ((ty, ps, arg), a) in enumerate(zip(items, answers)):
+                _c05_item(res, op, ty, ps, arg, a.split(" "), errs, " (call %d of %d of a history, mode %s)" % (k + 1, len(items), t[2]),
+                          dom=dom[(ty, ps)], mo=mos[k].split(" ") if k < len(mos) else ())
+    # marshal errors: the value must be one the independent encoder has no encoding for either
+    if errs:
+        out = core.driver_run(["ber spec %s %s %s" % (ty, ps, arg) for (_, ty, ps, arg, _) in errs])
+        for (op, ty, ps, arg, where), sp in zip(errs, out):
+            res.dist["marshal-error, no reference encoding either" if sp == "none" else "marshal-error, reference encodes"] += 1
+            if sp != "none":
+                res.violation("oracle", "C05: a value of a supported type failed to marshal (the reference encoder encodes it)" + where,
+                              [op[:20000], "# reference: " + sp[:3000]])
+    _ber_smallest_first(res)
     res.rule = ("same value generator as C04; each marshalled value is unmarshalled into a fresh variable of the same type with the same "
                 "parameters and compared structurally (nil pointers, nil vs empty lists distinguished); all 26 boundary integers; "
-                "non-trivial = value that marshals")
+                "histories of 2-6 marshal calls (same value repeated, same type, mixed types; lengths falling, rising, equal) in one goroutine "
+                "or one goroutine per value: every returned slice is kept, the arguments' buffers are overwritten, and only then every slice is "
+                "compared with its copy and unmarshalled; a marshal error must be matched by the reference encoder having no encoding; "
+                "the round trip is judged for every (type, parameters) the Lean driver places in the domain of Props.C05.C05_domain (all "
+                "schema types, primitives under any tagging) and, outside it, for every value the decoder model brings back; the rest is "
+                "counted under outside_property_domain (model and code are still compared); non-trivial = value that marshals")
 
 
 def explore_c16(ctx, res, replay_ops=None):
     r = _ber_run(ctx, res, replay_ops, n_for(ctx, 400, 5000))
     for i, (op, im) in enumerate(zip(r.ops, r.impl)):
         t = op.split(" ")
+        if t[1] == "V":
+            # several goroutines decode the items at once, into struct types the process has not decoded before, twice
+            res.evaluations += 1
+            items = _ber_items(t)
+            res.dist["concurrent:%s goroutines" % t[2]] += 1
+            res.traces_validated += 1
+            res.nontrivial.add(op)
+            if im in ("panic", "timeout", "crash"):
+                res.violation("oracle", "C16: concurrent Unmarshal calls: %s%s" % (
+                    im, " - the process was aborted by the Go runtime: " + r.crash_info.get(i, "") if im == "crash" else ""),
+                    [op[:20000], "# impl: " + im[:200]])
+                continue
+            answers = im.split(" | ")
+            for k, a in enumerate(answers):
+                a0 = a.split(" ")[0]
+                res.dist["outcome:" + a0] += 1
+                if a0 == "diverge":
+                    res.violation("oracle", "C16: the same octets unmarshalled into the same type gave different answers (item %d; %s goroutines, "
+                                  "two passes): Unmarshal is not a function of its input" % (k + 1, t[2]), [op[:20000], "# impl: " + im[:3000]])
+                elif a0 not in ("ok", "err"):
+                    res.violation("oracle", "C16: Unmarshal %s on arbitrary octets (item %d of a concurrent decoding)" % (a0, k + 1),
+                                  [op[:20000], "# impl: " + im[:3000]])
+            if len(answers) != len(items):
+                res.violation("oracle", "C16: %d concurrent decodings gave %d answers" % (len(items), len(answers)), [op[:20000], "# impl: " + im[:3000]])
+            continue
         if t[1] != "U":
             continue
         res.evaluations += 1
@@ -1258,21 +1381,30 @@ def explore_c16(ctx, res, replay_ops=None):
         res.dist["outcome:" + it[0]] += 1
         res.traces_validated += 1
         if it[0] not in ("ok", "err"):
-            res.violation("oracle", "C16: Unmarshal %s on arbitrary octets" % it[0], [op[:20000], "# impl: " + im[:200]])
+            res.violation("oracle", "C16: Unmarshal %s on arbitrary octets%s" % (it[0], " (%s)" % r.crash_info.get(i, "") if it[0] == "crash" else ""),
+                          [op[:20000], "# impl: " + im[:200]])
         res.nontrivial.add(op)
         if len(res.samples) < 6 and len(op) < 300:
             res.sample({"op": op, "impl": im[:120]})
+    _ber_smallest_first(res)
     res.rule = ("octet strings decoded under recover() with a 10 s deadline: the empty string, every 1-octet and a lattice of 2-octet "
                 "strings into 7 primitive targets (thorough: all 1- and a finer lattice of 2-octet strings), and truncations, single-bit flips, "
                 "rewritten length octets (00,7f,80,81,82,83,84,ff), appended octets, deletions and random strings against valid encodings of "
-                "schema types; outcome class compared with the Lean decoder model (ok value / error / panic)")
+                "schema types; outcome class compared with the Lean decoder model (ok value / error / panic); 2-11 valid, damaged and empty "
+                "encodings (and all 195 schema types from the empty SEQUENCE) decoded twice by 2/4/8 goroutines at once into struct types that "
+                "are new to the process in every operation: every decoding must answer, and answer what the sequential model answers; a Go "
+                "runtime abort (not recoverable) is attributed to the operation the harness died in and the harness is restarted")
 
 
 _ber_trust = ["Go reflect, and the table emitter classifying struct types (Value/List/Present conventions) in harness/cmd/ber.go",
               "Spec/X690.lean is my transcription of X.690 (no copy of the standard in the sandbox)"]
 PROPS["C04"] = dict(lean=["ChfVerif.Props.C04"], explore=explore_c04, gen=[gen_table("schema", "Schema.lean")], trusted=_ber_trust)
-PROPS["C05"] = dict(lean=["ChfVerif.Props.C05"], explore=explore_c05, gen=[gen_table("schema", "Schema.lean")], trusted=_ber_trust)
-PROPS["C16"] = dict(lean=["ChfVerif.Props.C16"], explore=explore_c16, trusted=_ber_trust)
+_ber_state_trust = ["the go/ast extractor of cdr/asn's package-level variables (harness/cmd/asnglobals.go) and the reading of its facts as a frame "
+                    "condition on calls (CodecState.Respects): a variable nothing assigns to, takes the address of or calls a method on is not changed by a call"]
+PROPS["C05"] = dict(lean=["ChfVerif.Props.C05"], explore=explore_c05,
+                    gen=[gen_table("schema", "Schema.lean"), gen_table("asnglobals", "AsnGlobals.lean")], trusted=_ber_trust + _ber_state_trust)
+PROPS["C16"] = dict(lean=["ChfVerif.Props.C16"], explore=explore_c16, gen=[gen_table("asnglobals", "AsnGlobals.lean")],
+                    trusted=_ber_trust + _ber_state_trust)
 
 
 # ------------------------------------------------------------------ C03  (CDR files written by the CHF)
